@@ -105,6 +105,38 @@ func TestVerifScenario_C16_expired_reregister(t *testing.T) {
 	fmt.Printf("SCENARIO-OK Expires=%d\n", n.Expires)
 }
 
+// C16: the price of Y years is Y times the yearly price -- also for year counts whose int64 product wraps.
+// 10_000_000 (yearly price of a 5+ letter .jkl name) * 649402867719685797 = 128 (mod 2^64), and
+// 649402867719685797 * 5484530 wraps to a positive term of about 9.05e18 blocks.
+func TestVerifScenario_C16_year_count_wraps(t *testing.T) {
+	k, l, ctx := vSetup(t)
+	a := vAddr(1)
+	vFund(l, a, 1_000)
+	const years = int64(649402867719685797)
+	msg := types.MsgRegister{Creator: a.String(), Name: "wrapped.jkl", Years: years, Data: "{}"}
+	if err := msg.ValidateBasic(); err != nil {
+		fmt.Println("SCENARIO-OK stateless validation refuses the year count:", err)
+		return
+	}
+	before := l.get(a).AmountOf("ujkl")
+	var err error
+	func() {
+		defer func() {
+			if r := recover(); r != nil {
+				err = fmt.Errorf("panic: %v", r)
+			}
+		}()
+		err = k.RegisterRNSName(ctx, a.String(), "wrapped.jkl", "{}", years, false)
+	}()
+	if err != nil {
+		fmt.Println("SCENARIO-OK registration for a year count whose price does not fit is refused:", err)
+		return
+	}
+	paid := before.Sub(l.get(a).AmountOf("ujkl"))
+	n, _ := k.GetNames(ctx, "wrapped", "jkl")
+	fmt.Printf("SCENARIO-VIOLATION an account holding 1000ujkl registered wrapped.jkl for %d years (accepted by ValidateBasic): debited %sujkl instead of %d x 10000000ujkl, name expires at block %d\n", years, paid, years, n.Expires)
+}
+
 // C08: a listing created by a previous owner must not sell the name of the current owner.
 func TestVerifScenario_C08_stale_listing(t *testing.T) {
 	k, l, ctx := vSetup(t)
